@@ -71,6 +71,10 @@ func (o *Options) ServerOptions() []string {
 	}
 	if o.Recurse() {
 		argstr += "r"
+	} else if o.XferDirs() != 0 {
+		// -d/--dirs without -r: --recursive implies --dirs on the other
+		// side, so only the lone option needs to be sent.
+		argstr += "d"
 	}
 	if o.AlwaysChecksum() {
 		argstr += "c"
